@@ -14,8 +14,9 @@ SIZES = {
     "xml": (250, 3000),
     "neareq": (1500, 15000),
     "msetdup": (200, 2500),
+    "huge": (12, 60),
 }
-DEFAULT_KINDS = ["small", "random", "skewed", "mset", "msetdup", "xml"]
+DEFAULT_KINDS = ["small", "random", "skewed", "mset", "msetdup", "xml", "huge"]
 
 
 def innermost_class(ev, step):
